@@ -67,6 +67,8 @@ type Contract struct {
 	PanicsCond SExpr
 	PanicsSrc  string
 	Loops      map[int]*LoopSpec
+	CallLoops  map[string]*LoopSpec // "callee#k/n": loop n of the callee inlined at the k-th call of callee
+	InlineAt   map[string]bool      // "callee#k": inline the callee's body at this call site
 	GhostAts   []GhostAt
 	ParamSpecs map[string]string
 	Modifies   []string
@@ -106,6 +108,7 @@ func NewContractSet() *ContractSet {
 	return &ContractSet{Funcs: map[string]*Contract{}, SpecFuns: map[string]*SpecFun{}, PkgMode: map[string]map[string]string{}, Globals: map[string]*SType{}}
 }
 
+var reCallLoop = regexp.MustCompile(`^loop\s+([\w.]+#\d+)/(\d+)(?:\s+index\s+(\w+))?\s*:?$`)
 var reLoop = regexp.MustCompile(`^loop\s+(\d+)(?:\s+index\s+(\w+))?\s*:?$`)
 var reAtBody = regexp.MustCompile(`^at\s+body\s+loop\s+(\d+)\s*:\s*(.*)$`)
 var reAt = regexp.MustCompile(`^at\s+(before|after)\s+call\s+([\w.]+)#(\d+)\s*:\s*(.*)$`)
@@ -246,7 +249,7 @@ func (cs *ContractSet) LoadContractFile(path string, pkgName string) error {
 			if _, dup := cs.Funcs[name]; dup {
 				return fail(i, "duplicate contract for %s", name)
 			}
-			cur = &Contract{Key: name, ParamNames: params, Extern: kw == "extern", Trusted: kw == "extern", Loops: map[int]*LoopSpec{}, ParamSpecs: map[string]string{}, File: path, Line: lnos[i]}
+			cur = &Contract{Key: name, ParamNames: params, Extern: kw == "extern", Trusted: kw == "extern", Loops: map[int]*LoopSpec{}, CallLoops: map[string]*LoopSpec{}, InlineAt: map[string]bool{}, ParamSpecs: map[string]string{}, File: path, Line: lnos[i]}
 			cs.Funcs[name] = cur
 			curLoop = nil
 		case "spec-fun", "spec-def", "spec-rec":
@@ -396,7 +399,15 @@ func (cs *ContractSet) LoadContractFile(path string, pkgName string) error {
 				default:
 					return fail(i, "panics never|may|iff")
 				}
+			case "inline-call":
+				cur.InlineAt[strings.TrimSpace(rest)] = true
 			case "loop":
+				if mc := reCallLoop.FindStringSubmatch(t); mc != nil {
+					n, _ := strconv.Atoi(mc[2])
+					curLoop = &LoopSpec{Ord: n, Index: mc[3]}
+					cur.CallLoops[mc[1]+"/"+mc[2]] = curLoop
+					break
+				}
 				m := reLoop.FindStringSubmatch(t)
 				if m == nil {
 					return fail(i, "bad loop header %q", t)
